@@ -7,13 +7,14 @@ from gen import collect as G
 
 ID = "C14"
 LEVEL = "proof"
-LEAN_IMPORTS = ["WM.Props.C14Page", "WM.Props.C14", "WM.Props.C14Results"]
+LEAN_IMPORTS = ["WM.Props.C14Page", "WM.Props.C14", "WM.Props.C14Results", "WM.Props.C14Compose"]
 THEOREMS = ["WM.C14.page_fields", "WM.C14.page_tiling", "WM.C14.sorted", "WM.C14.kdLe_iff", "WM.C14.filter_mask",
             "WM.C14.filter_commutes_ranking", "WM.C14.filter_commutes_sorting", "WM.C14.facets_partition",
             "WM.C14.facets_count", "WM.C14.collapse", "WM.C14.rank_iso", "WM.C14.rank_missing",
             "WM.C14.len_sorted", "WM.C14.len_top", "WM.C14.extend_spec", "WM.C14.filter_spec", "WM.C14.upgrade_spec",
             "WM.C14.sorted_reverse_ties", "WM.C14.facets_ordered", "WM.C14.facets_best", "WM.C14.page_slice",
-            "WM.C14.upgrade_and_extend_spec"]
+            "WM.C14.upgrade_and_extend_spec", "WM.C14.search_filter_mask_sorted", "WM.C14.search_filter_mask_scored",
+            "WM.C14.search_collapse_sorted", "WM.C14.page_of_view"]
 PARTIAL = {
     "WM.C14.len_top":
         "only the branch may_have_dropped = false has content (TopCollector.total counted every match); in the "
@@ -27,14 +28,24 @@ PARTIAL = {
         "'document order on ties' holds for per-key reversal (FieldFacet(reverse=True)) only; recorded finding "
         "sortedby+reverse=True:ties-in-descending-document-order",
     "WM.C14.filter_commutes_ranking":
-        "a fact about the specification order (filtering commutes with ranking/sorting); together with "
-        "filter_mask, sorted and C05.with_wrappers_partial it gives the filtered views, but no C14 theorem composes "
-        "them, and turning a filter given as a query or a Results object into an id set is checked end to end only",
+        "a fact about the specification order; composed with filter_mask, sorted and C05.with_wrappers_partial / "
+        "C05.unlimited into WM.C14.search_filter_mask_sorted and WM.C14.search_filter_mask_scored. Turning a "
+        "filter given as a query or a Results object into an id set is checked end to end only",
     "WM.C14.collapse":
-        "the collector stack FilterCollector(CollapseCollector(TopCollector)) with a limit is covered "
-        "differentially only (C05.with_wrappers_full is open / refuted for collapse_order)",
+        "composed with the filter and the SortingCollector into WM.C14.search_collapse_sorted (sorted searches, any "
+        "limit, len(), collapsed_counts) and with ResultsPage into WM.C14.page_of_view; the *scored* stack "
+        "FilterCollector(CollapseCollector(TopCollector)) with a limit is modelled (collectStack) and tied to the "
+        "code differentially, but has no theorem (C05.with_wrappers_full is open without collapse_order and "
+        "refuted with it)",
+    "WM.C14.search_collapse_sorted":
+        "under search(reverse=True) without collapse_order the collapser still keeps the documents with the "
+        "*smallest* sort keys (SortingCollector.sort_key ignores reverse), which the reversed list shows last: "
+        "'the best N per key' is in ascending key order, not in result order (Lean example next to the theorem)",
 }
-RULE = ("collector stream: the real Sorting/Unlimited/Top/Filter/Facet/Collapse collectors over abstract segments "
+RULE = ("view-stack stream: Searcher.collector / Searcher.search_page (the real methods, over abstract segments with "
+        "key tables) building FilterCollector(CollapseCollector(SortingCollector)) vs the Lean searchSorted / "
+        "searchPageSorted; non-trivial = a document was filtered, collapsed or cut by the limit / page. "
+        "collector stream: the real Sorting/Unlimited/Top/Filter/Facet/Collapse collectors over abstract segments "
         "with key tables (ties, missing keys, 0 keys) vs the Lean model; non-trivial = at least two documents tie on "
         "the key, or a document is filtered/collapsed. page stream: exhaustive total<=40 x pagelen<=12 x pagenum<=8. "
         "end-to-end stream: real multi-segment indexes with missing values and segments lacking the column; "
@@ -43,7 +54,9 @@ ASSUMPTIONS = ["sort keys are modelled as tuples of numbers; keys of mixed Pytho
                "list.sort is a stable sort; bisect.insort inserts after equal elements",
                "ColumnCategorizer, ReversedColumnCategorizer and multi-key direction mixing are modelled at the key "
                "level only (the key a categorizer returns); how columns produce keys belongs to C08/C13",
-               "a collapse key None / '' / b'' means 'no key'; every other value, 0 included, is a key"]
+               "a collapse key None / '' / b'' means 'no key'; every other value, 0 included, is a key",
+               "a boolean per-document column (columns.BitColumn) has no representation of a missing value: a document "
+               "without a value, and every document of a segment without the column file, counts as False"]
 TRUSTED = ["the table-driven facets of harness/props/c14.py (public FacetType/Categorizer extension API)"]
 MANIFEST = {
     "level_text": "Lean theorems for the key-level model of whoosh.collectors / ResultsPage / PostingCategorizer; the "
@@ -298,6 +311,105 @@ def _stream_collectors(ctx):
     ctx.sample({"collector_line": lines[0][:300], "model_reply": replies[0][:200]})
 
 
+def _stream_view_stack(ctx):
+    """Direct correspondence for `searchSorted` / `searchPageSorted` (the functions the composed theorems
+    search_filter_mask_sorted, search_collapse_sorted and page_of_view speak about): the real
+    Searcher.collector(sortedby=, reverse=, limit=, filter=, mask=, collapse=, collapse_limit=,
+    collapse_order=) stack and the real Searcher.search_page over abstract segments with key tables."""
+    from whoosh.searching import Searcher
+    TableFacet = _facet_classes()
+
+    class ViewWorld(G.FakeWorld):
+        def search(self, q, **kw):
+            return self.run(Searcher.collector(self, **kw))
+
+        def search_page(self, q, pagenum, pagelen=10, **kw):
+            return Searcher.search_page(self, q, pagenum, pagelen, **kw)
+
+        def reader(self):      # Hit.__init__ keeps a reader (only used for stored fields)
+            return None
+    rng = ctx.rng("view-stack")
+    n = ctx.budget(2500, 15000)
+    lines, checks = [], []
+    for i in range(n):
+        segs, _ = G.gen_world(rng, maxpost=8)
+        docs = _docs_of(segs)
+        multi = rng.random() < 0.3
+        keys = _gen_keys(rng, docs, multi)
+        reverse = rng.random() < 0.35
+        allow = None if rng.random() < 0.5 else sorted(rng.sample(docs + [999], rng.randint(0, len(docs))))
+        restrict = None if rng.random() < 0.6 else sorted(rng.sample(docs + [998], rng.randint(0, len(docs))))
+        coll = None
+        if rng.random() < 0.6:
+            ckeys = {d: rng.choice([None, 0, 1, 2, 2, 3]) for d in docs}
+            order = _gen_keys(rng, docs, False) if rng.random() < 0.35 else None
+            coll = (rng.choice([1, 1, 2, 3]), ckeys, order)
+        kw = {"sortedby": TableFacet(keys), "reverse": reverse}
+        if allow is not None:
+            kw["filter"] = set(allow)
+        if restrict is not None:
+            kw["mask"] = set(restrict)
+        if coll:
+            kw.update(collapse=TableFacet(coll[1]), collapse_limit=coll[0])
+            if coll[2] is not None:
+                kw["collapse_order"] = TableFacet(coll[2])
+        rows = " ".join("(%d %s %s %s)" % (
+            d, _key_sexp(keys[d]), "none" if not coll or coll[1][d] is None else coll[1][d],
+            _key_sexp(coll[2][d]) if coll and coll[2] is not None else "()") for d in docs)
+        tail = "%d %s %s %s (%s)" % (1 if reverse else 0, "none" if allow is None else sexp(allow),
+                                     "none" if restrict is None else sexp(restrict),
+                                     "none" if not coll else "(%d %d)" % (coll[0], 1 if coll[2] is not None else 0), rows)
+        w = ViewWorld(segs, [])
+        if rng.random() < 0.6:
+            limit = rng.choice([None, None, 1, 2, 3, 50])
+            kind = "view"
+            line = "c14 view %s %s" % ("none" if limit is None else limit, tail)
+            try:
+                r = w.search(w.q, limit=limit, **kw)
+                impl = "ok (%s) %d %d (%s)" % (
+                    " ".join("(%d %s)" % (d, _key_sexp(k)) for k, d in r.top_n), len(r),
+                    getattr(r, "filtered_count", 0) if (allow is not None or restrict is not None) else 0,
+                    " ".join("(%d %d)" % (int(k), v) for k, v in getattr(r, "collapsed_counts", {}).items() if v))
+                shown = len(r.top_n)
+            except IndexError:
+                impl, shown = "err IndexError", 0
+            nontrivial = shown < len(docs)
+        else:
+            pagenum = rng.choice([0, 1, 1, 2, 2, 3, 7])
+            pagelen = rng.choice([0, 1, 2, 3, 3, 5, 10])
+            kind = "pageview"
+            line = "c14 pageview %d %d %s" % (pagenum, pagelen, tail)
+            try:
+                pg = w.search_page(w.q, pagenum, pagelen, **kw)
+                impl = "ok %d %d %d %d %d %s" % (pg.total, pg.pagecount, pg.pagenum, pg.offset, pg.pagelen,
+                                                 sexp([h.docnum for h in pg]))
+                nontrivial = pg.total > pg.pagelen
+            except ValueError as e:
+                impl = "err LimitValueError" if "limit" in str(e) and pagenum >= 1 else "err ValueError"
+                nontrivial = False
+            except ZeroDivisionError:
+                impl, nontrivial = "err ZeroDivisionError", False
+            except IndexError:
+                impl, nontrivial = "err IndexError", False
+        ctx.stat("view-stack:" + kind + (":collapse" if coll else "") + (":filter" if allow is not None or restrict is not None else ""))
+
+        def chk(reply, impl=impl, line=line, kind=kind, nontrivial=nontrivial):
+            ctx.case((kind, line), nontrivial=nontrivial)
+            m = reply
+            if kind == "view" and reply.startswith("ok") and impl.startswith("ok"):
+                # collapsed_counts is a dict: compare as a set of (key, count)
+                pm, pi = parse_sexp(reply), parse_sexp(impl)
+                m = (pm[1], pm[2], pm[3], sorted(map(tuple, pm[4])))
+                impl = (pi[1], pi[2], pi[3], sorted(map(tuple, pi[4])))
+            if m != impl:
+                ctx.divergence("searching.Searcher.%s (Filter/Collapse/SortingCollector stack)" % (
+                    "collector" if kind == "view" else "search_page"), line, reply, impl)
+        lines.append(line)
+        checks.append(chk)
+    for rep, fn in zip(ctx.driver.ask(lines), checks):
+        fn(rep)
+
+
 def _stream_pages(ctx):
     """ResultsPage arithmetic, exhaustively over a small box (a fake Results with only __len__)."""
     from whoosh.searching import ResultsPage
@@ -355,12 +467,27 @@ def _gen_view_corpus(rng):
         if rng.random() >= pmiss:
             d["grp"] = rng.choice(GRPS)
         d["tag"] = sorted(set(rng.choices(TAGS, k=rng.choice([0, 1, 1, 2, 3]))))
+        # boolean per-document columns: COLUMN(BitColumn()) and NUMERIC(sortable=BitColumn())
+        if rng.random() >= pmiss:
+            d["bc"] = rng.random() < 0.5
+        if rng.random() >= pmiss:
+            d["nb"] = rng.choice([0, 1])
         docs.append(d)
     nseg = rng.choice([1, 1, 2, 3])
     cuts = sorted(rng.sample(range(1, n), min(nseg - 1, n - 1)))
     dels = sorted(rng.sample(range(n), rng.choice([0, 0, 1, 2])))
+    # segments lacking the column file of the bit fields: "hole" = no document of one segment has a value,
+    # "late" = the fields are added to the schema after the first segment was written
+    bitmode = rng.choice(["all", "hole", "hole", "late"]) if cuts else "all"
+    bithole = rng.randrange(len(cuts) + 1) if bitmode == "hole" else None
+    if bitmode != "all":
+        bounds = [0] + cuts + [n]
+        a, b = (bounds[bithole], bounds[bithole + 1]) if bitmode == "hole" else (0, cuts[0])
+        for d in docs[a:b]:
+            d.pop("bc", None)
+            d.pop("nb", None)
     return {"docs": docs, "cuts": cuts, "dels": dels, "columns": rng.random() < 0.6,
-            "late_column": rng.random() < 0.12, "blocklimit": rng.choice([2, 4, 128])}
+            "late_column": rng.random() < 0.12, "blocklimit": rng.choice([2, 4, 128]), "bitmode": bitmode}
 
 
 def _build_view_index(corpus):
@@ -372,7 +499,21 @@ def _build_view_index(corpus):
     col = corpus["columns"]
     late = corpus["late_column"] and col and corpus["cuts"]
 
+    from whoosh import columns as wcolumns
+    bitlate = corpus.get("bitmode") == "late"
+
+    def bitfields():
+        return {"bc": fields.COLUMN(wcolumns.BitColumn()),
+                "nb": fields.NUMERIC(int, 32, signed=False, sortable=wcolumns.BitColumn())}
+
     def mkschema(columns):
+        sch = mkschema0(columns)
+        if not bitlate:
+            for name, ft in sorted(bitfields().items()):
+                sch.add(name, ft)
+        return sch
+
+    def mkschema0(columns):
         return fields.Schema(
             id=fields.STORED(),
             t=fields.TEXT(analyzer=analysis.SpaceSeparatedTokenizer()),
@@ -391,6 +532,9 @@ def _build_view_index(corpus):
             w.add_field("nm", fields.NUMERIC(int, 32, sortable=True, stored=True))
             w.add_field("dt", fields.DATETIME(sortable=True))
             w.add_field("grp", fields.ID(sortable=True))
+        if bitlate and si == 1:
+            for name, ft in sorted(bitfields().items()):
+                w.add_field(name, ft)
         for d in docs[a:b]:
             kw = {"id": d["id"], "t": " ".join(d["t"])}
             if "tx" in d:
@@ -406,6 +550,10 @@ def _build_view_index(corpus):
                 kw["grp"] = d["grp"]
             if d["tag"]:
                 kw["tag"] = " ".join(d["tag"])
+            if "bc" in d:
+                kw["bc"] = d["bc"]
+            if "nb" in d:
+                kw["nb"] = d["nb"]
             w.add_document(**kw)
         w.commit(merge=False)
     if corpus["dels"]:
@@ -428,6 +576,9 @@ def _rank_of(field, d):
         return d["dt"] if "dt" in d else 7
     if field == "bl":
         return (1 if d["bl"] else 0) if "bl" in d else 2
+    if field in ("bc", "nb"):
+        # a bit column has no representation of "no value": it reads False (ASSUMPTIONS)
+        return 1 if d.get(field) else 0
     raise ValueError(field)
 
 
@@ -521,7 +672,8 @@ def _views_run(corpus, seedstr):
             mids = [d["id"] for d in m]
             byid = {d["id"]: d for d in corpus["docs"]}
             view = rng.choice(["sort", "sort", "sortmulti", "sortscore", "stored", "group", "group", "overlap",
-                               "queryfacet", "rangefacet", "collapse", "collapse", "filter", "filter", "page", "len"])
+                               "queryfacet", "rangefacet", "collapse", "collapse", "filter", "filter", "page", "len",
+                               "sortbit", "sortbit", "collapsebit"])
             if view in ("collapse", "filter", "page") and qd[0] == "or":
                 # limited scored searches go through TopCollector: keep the matcher a single posting list,
                 # the optimisations of compound matchers are C05's business
@@ -547,6 +699,47 @@ def _views_run(corpus, seedstr):
                             " ".join("(%d (%d))" % (i, -_rank_of(f, byid[i]) if frev else _rank_of(f, byid[i])) for i in mids))
                         rec["alt"] = _alt_order(corpus, mids, byid, lambda d: (-1 if frev else 1) * _alt_rank(f, d, corpus),
                                                 rev, limit)
+                    elif view == "sortbit":
+                        # a boolean per-document column as sort key, alone or with a second key, per-key reversal
+                        f = rng.choice(["bc", "bc", "nb"])
+                        frev = rng.random() < 0.6
+                        f2 = rng.choice([None, None, "nm", "bl"])
+                        r2 = rng.random() < 0.4
+                        rev = rng.random() < 0.15
+                        limit = rng.choice([None, None, 3, 1])
+                        rec.update(field=f + ("+" + f2 if f2 else ""), frev=(frev, r2) if f2 else frev, rev=rev, limit=limit,
+                                   missing=any(f not in d for d in m) or bool(f2 and any(f2 not in d for d in m)))
+                        facet = sorting.FieldFacet(f, reverse=frev)
+                        if f2:
+                            facet = sorting.MultiFacet([facet, sorting.FieldFacet(f2, reverse=r2)])
+                        r = s.search(q, sortedby=facet, reverse=rev, limit=limit)
+                        rec["observed"] = [h.docnum for h in r]
+                        rec["len"] = len(r)
+
+                        def bkey(i):
+                            k = [(-1 if frev else 1) * _rank_of(f, byid[i])]
+                            if f2:
+                                k.append((-1 if r2 else 1) * _rank_of(f2, byid[i]))
+                            return k
+                        rec["line"] = "c14 sort %s %d (%s)" % (
+                            "none" if limit is None else limit, 1 if rev else 0,
+                            " ".join("(%d (%s))" % (i, " ".join(map(str, bkey(i)))) for i in mids))
+                    elif view == "collapsebit":
+                        f = rng.choice(["bc", "nb"])
+                        frev = rng.random() < 0.5
+                        climit = rng.choice([1, 1, 2])
+                        rec.update(field=f, frev=frev, climit=climit, limit=None, sortf=None, order=False,
+                                   missing=any(f not in d for d in m))
+                        r = s.search(q, collapse=sorting.FieldFacet(f, reverse=frev), collapse_limit=climit, limit=None)
+                        rec["observed"] = [h.docnum for h in r]
+                        rec["len"] = len(r)
+                        # no document at all has a value: no segment has the column file, the facet falls back to
+                        # the (empty) postings of the field and no document has a key
+                        anyval = any(f in d for d in corpus["docs"])
+                        rec["line"] = "c14 collapse %d (%s)" % (climit, " ".join(
+                            "(%d %s (%s))" % (i, (_rank_of(f, byid[i]) + 1) if anyval else "none",
+                                              G.rat(0 - _score(byid[i], qd))) for i in mids))
+                        rec["final_keys"] = {i: [G.rat(0 - _score(byid[i], qd))] for i in mids}
                     elif view == "sortmulti":
                         f1, f2 = rng.sample(["tx", "nm", "dt", "bl"], 2)
                         r1, r2 = rng.random() < 0.4, rng.random() < 0.4
@@ -628,6 +821,25 @@ def _views_run(corpus, seedstr):
                             kw["collapse_order"] = sorting.FieldFacet("nm")
                         if sortf:
                             kw["sortedby"] = sortf
+                        crev = bool(sortf) and not order and rng.random() < 0.35
+                        if crev:
+                            # sorted descending and collapsed: "the best N per key" is in result order
+                            kw["reverse"] = True
+                            rec["rev"] = True
+                            rec["view_line"] = "c14 view %s 1 none none (%d 0) (%s)" % (
+                                "none" if not limit else limit, climit, " ".join(
+                                    "(%d (%d) %s ())" % (i, _rank_of("nm", byid[i]),
+                                                         GRPS.index(byid[i]["grp"]) + 1 if "grp" in byid[i] else "none")
+                                    for i in mids))
+                            groups = {}
+                            for i in mids:
+                                groups.setdefault(byid[i].get("grp"), []).append(i)
+                            keep = []
+                            for g, members in groups.items():
+                                members.sort(key=lambda i: (-_rank_of("nm", byid[i]), -i))
+                                keep.extend(members if g is None else members[:climit])
+                            keep.sort(key=lambda i: (-_rank_of("nm", byid[i]), -i))
+                            rec["rev_spec"] = keep[:limit] if limit else keep
                         r = s.search(q, **kw)
                         rec["observed"] = [h.docnum for h in r]
                         rec["len"] = len(r)
@@ -822,7 +1034,7 @@ def _stream_views(ctx):
         if "exc" in r or "line" not in r:
             continue
         rep = replies[r["line"]]
-        if r["kind"] == "collapse":
+        if r["kind"] in ("collapse", "collapsebit"):
             p = parse_sexp(rep)
             if p[0] == "ok":
                 kept = [int(x) for x in p[1]]
@@ -839,6 +1051,10 @@ def _stream_views(ctx):
     rep2 = ctx.driver.ask(second) if second else []
     for r, rep in zip(owners, rep2):
         r["final"] = [int(d) for d, _ in parse_sexp(rep)[0]]
+    vrecs = [r for r in allrecs if "view_line" in r and "exc" not in r]
+    for r, rep in zip(vrecs, ctx.driver.ask([r["view_line"] for r in vrecs]) if vrecs else []):
+        p = parse_sexp(rep)
+        r["view_model"] = [int(d) for d, _ in p[1]] if p[0] == "ok" else None
     srecs = [r for r in allrecs if "stack_line" in r and "exc" not in r]
     for r, rep in zip(srecs, ctx.driver.ask([r["stack_line"] for r in srecs]) if srecs else []):
         p = parse_sexp(rep)
@@ -883,7 +1099,10 @@ def _verdicts(r, reply):
     late = r["info"]["late_column"]
     if "exc" in r:
         ctx.case((kind, repr(case)), nontrivial=True)
-        if kind == "stored" and r["exc"].startswith("TypeError") and r.get("missing"):
+        if kind in ("sortbit", "collapsebit") and r["exc"].startswith("TermNotFound@reading.py") and \
+                r["field"].split("+")[0] == "bc" and not any("bc" in d for d in r["corpus"]["docs"]):
+            sig = "FieldFacet(COLUMN-field):no-segment-has-the-column-file:TermNotFound"
+        elif kind == "stored" and r["exc"].startswith("TypeError") and r.get("missing"):
             sig = "sortedby:StoredFieldFacet:missing-value:TypeError-None-vs-str"
         elif kind == "group" and r.get("field") == "dt" and r["exc"].startswith("OverflowError") and \
                 r["info"]["columns"] and (r.get("missing") or late):
@@ -895,7 +1114,38 @@ def _verdicts(r, reply):
             sig = "%s(%s) raises %s [%s]" % (kind, r.get("field"), r["exc"], _sort_signature(r))
         ctx.violation(sig, case, "a result", r["exc"], "the view raises")
         return nontrivial[0], out
-    if kind in ("sort", "sortmulti", "sortscore", "stored"):
+    if kind in ("sortbit", "collapsebit"):
+        bm = r["corpus"].get("bitmode", "all")
+        layout = "bit-column:%s:%s" % ({"all": "every-segment-has-the-column", "hole": "segment-without-column",
+                                        "late": "segment-written-before-the-field"}[bm],
+                                       "per-key-reverse" if (r["frev"][0] if isinstance(r["frev"], (list, tuple)) else r["frev"])
+                                       else "ascending")
+    if kind == "sortbit":
+        want = [int(d) for d, _ in parse_sexp(reply)[0]]
+        got = r["observed"]
+        ctx.case((kind, repr(case)), nontrivial=want != sorted(want))
+        if got != want:
+            ctx.violation("sortedby(%s)!=spec-order [%s]" % (r["field"].replace("bc", "bit").replace("nb", "bit"), layout),
+                          case, want, got, "results sorted on a boolean column are not in (key, docnum) order")
+        elif r.get("rev"):
+            strict = _strict_reverse_order(r["line"])
+            if strict != got:
+                ctx.violation("sortedby+reverse=True:ties-in-descending-document-order", case, strict, got,
+                              "search(reverse=True) returns documents with equal sort keys in descending document order")
+        if r["len"] != r["nmatched"]:
+            ctx.violation("len(results)!=matched [sortedby]", case, r["nmatched"], r["len"])
+    elif kind == "collapsebit":
+        p = parse_sexp(reply)
+        if p[0] != "ok":
+            return nontrivial[0], out
+        want = r["final"]
+        ctx.case((kind, repr(case)), nontrivial=bool(p[2]))
+        if r["observed"] != want:
+            ctx.violation("collapse(bit)!=best-N-per-key [%s]" % layout, case, want, r["observed"],
+                          "results collapsed on a boolean column are not the best N per value")
+        elif r["len"] != len(want):
+            ctx.violation("collapse(bit):len(results)!=kept [%s]" % layout, case, len(want), r["len"])
+    elif kind in ("sort", "sortmulti", "sortscore", "stored"):
         want = [int(d) for d, _ in parse_sexp(reply)[0]]
         got = r["observed"]
         plain = sorted(want)
@@ -945,6 +1195,17 @@ def _verdicts(r, reply):
             ctx.violation("groupedby:ColumnCategorizer.key_to_name:numeric-column:missing-value-named-by-column-default",
                           case, "group name None", r["observed_raw"],
                           "documents without a value are grouped under the column's default number")
+    elif kind == "collapse" and r.get("rev"):
+        # search(sortedby=, reverse=True, collapse=): the property's "best N per key" is in result order
+        ctx.case((kind, repr(case)), nontrivial=r["observed"] != sorted(r["observed"], reverse=True))
+        if r["observed"] != r["rev_spec"]:
+            if r.get("view_model") is not None and r["observed"] == r["view_model"]:
+                sig = "collapse+sortedby+reverse=True:keeps-the-N-smallest-keys-per-group-which-the-reversed-list-shows-last"
+            else:
+                sig = "collapse(limit=%s,sortedby=True,reverse=True)!=best-N-per-key [%s]" % (
+                    "k" if r["limit"] else "None", _sort_signature(r))
+            ctx.violation(sig, case, r["rev_spec"], r["observed"],
+                          "collapsed descending results are not the best N per key in result order")
     elif kind == "collapse":
         p = parse_sexp(reply)
         if p[0] != "ok":
@@ -1006,6 +1267,10 @@ def _judge_view(ctx, r, reply, replies):
     kind = r["kind"]
     ctx.stat("e2e:" + kind)
     ctx.stat("e2e:layout:" + _sort_signature(r))
+    if kind in ("sortbit", "collapsebit"):
+        frev = r.get("frev")
+        ctx.stat("e2e:bit-column:%s:%s" % (r["corpus"].get("bitmode", "all"),
+                                            "per-key-reverse" if (frev[0] if isinstance(frev, (list, tuple)) else frev) else "ascending"))
     case = {"corpus": r["corpus"], "q": r["q"], "seed": r.get("seed"), "index": r.get("index"),
             "view": {k: r[k] for k in r if k in (
                 "kind", "field", "frev", "rev", "limit", "maptype", "climit", "order", "sortf", "pagelen", "pagenum")}}
@@ -1016,7 +1281,7 @@ def _judge_view(ctx, r, reply, replies):
         _, vs2 = _verdicts(r2, replies.get(r2.get("line")))
         if not vs2:
             vs = [("%s:ColumnCategorizer:segment-without-column-reads-default-values" % (
-                "sortedby" if kind in ("sort", "sortmulti", "sortscore", "stored", "page", "filter") else
+                "sortedby" if kind in ("sort", "sortbit", "sortmulti", "sortscore", "stored", "page", "filter") else
                 "groupedby" if kind in ("group", "overlap", "queryfacet", "rangefacet") else kind),
                 vs[0][1], vs[0][2], "fails only when the first segment was written before the field had a column")]
         else:
@@ -1180,6 +1445,7 @@ def _stream_categorizers(ctx):
 
 def run(ctx):
     _stream_collectors(ctx)
+    _stream_view_stack(ctx)
     _stream_pages(ctx)
     _stream_results_ops(ctx)
     _stream_categorizers(ctx)
@@ -1206,14 +1472,17 @@ def replay(ctx, rec):
             if "exc" in x or "line" not in x:
                 continue
             rep = replies[x["line"]]
-            if x["kind"] in ("collapse", "filter"):
+            if x["kind"] in ("collapse", "collapsebit", "filter"):
                 p = parse_sexp(rep)
-                kept = [int(v) for v in (p[1] if x["kind"] == "collapse" else p[0])] if (x["kind"] == "filter" or p[0] == "ok") else None
+                kept = [int(v) for v in (p[1] if x["kind"] != "filter" else p[0])] if (x["kind"] == "filter" or p[0] == "ok") else None
                 if kept is not None:
                     x["final"] = [int(d) for d, _ in parse_sexp(ctx.driver.ask1(_final_sort_line(x, kept, x.get("limit"))))[0]]
             elif x["kind"] == "page":
                 x["final"] = [int(d) for d, _ in parse_sexp(ctx.driver.ask1(
                     _final_sort_line(x, sorted(x["final_keys"], key=int), None)))[0]]
+            if "view_line" in x:
+                p = parse_sexp(ctx.driver.ask1(x["view_line"]))
+                x["view_model"] = [int(d) for d, _ in p[1]] if p[0] == "ok" else None
             if "stack_line" in x:
                 p = parse_sexp(ctx.driver.ask1(x["stack_line"]))
                 x["stack"] = [int(d) for d, _ in p[1]] if p[0] == "ok" else None
